@@ -42,6 +42,9 @@ where
             },
         };
         writeln!(out, "{} ||| {}", res.0.print(), res.1).unwrap();
+        // one line per case reaches the pipe at once: when a later case never returns, the driver
+        // (lib/vlib.run_lines) can tell from the lines it got which case is the hanging one
+        out.flush().unwrap();
     }
     out.flush().unwrap();
 }
